@@ -17,6 +17,9 @@ def run_contract_enum(name, contract, arg_sets, scope, max_report=5) -> BoundedR
     fsrc = source.get_function(contract.qualname)
     check_real_hash(fsrc)
     fn, cls = real_function(fsrc)
+    wrap = getattr(contract, "wrap_real", None)
+    if wrap is not None:   # harness around the REAL function (sets the environment it reads, adapts the argument tuple); the function itself is unchanged
+        fn = wrap(fn)
     seen = set()
     for args in arg_sets:
         br.cases += 1
